@@ -7,6 +7,17 @@ From Bifrost Require Import Lib.Base Lib.StrOps gen.Handlers.
 
 Record stream := St { s_proto : bytes; s_local : bytes; s_remote : bytes }.
 
+(* The WHOLE configuration of each controller, including the fields the accept decision must
+   not depend on (where the stream is forwarded to, link options, ...): the decision functions
+   take the whole record, the theorems say which fields matter. *)
+Record echo_cfg := EchoCfg { ec_proto : bytes; ec_local : bytes }.
+Record fwd_cfg := FwdCfg { fw_proto : bytes; fw_local : bytes; fw_target_multiaddr : bytes }.
+Record relay_cfg := RelayCfg { rl_proto : bytes; rl_src : bytes; rl_target_peer : bytes; rl_target_proto : bytes }.
+Record accept_cfg := AcceptCfg { ac_proto : bytes; ac_local : bytes; ac_remotes : list bytes }.
+Record srpc_cfg := SrpcCfg { sr_protos : list bytes; sr_peer_strs : list bytes; sr_disable_establish_link : bool }.
+Record pubsub_cfg := PubsubCfg { pb_peer : bytes; pb_proto : bytes }.
+Record solicit_cfg := SolicitCfg { so_max_hashes : Z }.
+
 (* the `if localPeerID != "" { if lid != localPeerID { return nil } }` block *)
 Definition local_ok (cfg_local : bytes) (s : stream) : bool :=
   if nonempty cfg_local then bytes_eqb (s_local s) cfg_local else true.
@@ -16,23 +27,28 @@ Definition local_ok (cfg_local : bytes) (s : stream) : bool :=
 Definition echo_effective_proto (cfg_proto : bytes) : bytes :=
   if nonempty cfg_proto then cfg_proto else echo_default_protocol_id.
 
-Definition echo_offers (cfg_proto cfg_local : bytes) (s : stream) : bool :=
-  let p := echo_effective_proto cfg_proto in
+Definition echo_offers (c : echo_cfg) (s : stream) : bool :=
+  let cfg_local := ec_local c in
+  let p := echo_effective_proto (ec_proto c) in
   if nonempty p && negb (bytes_eqb p (s_proto s)) then false
   else local_ok cfg_local s.
 
 (* stream/forwarding: an empty configured protocol id is "no protocol filter". *)
-Definition forwarding_offers (cfg_proto cfg_local : bytes) (s : stream) : bool :=
+Definition forwarding_offers (c : fwd_cfg) (s : stream) : bool :=
+  let cfg_proto := fw_proto c in let cfg_local := fw_local c in
   if nonempty cfg_proto && negb (bytes_eqb cfg_proto (s_proto s)) then false
   else local_ok cfg_local s.
 
-(* stream/relay: protocol and source (local) peer both compared unconditionally *)
-Definition relay_offers (cfg_proto cfg_src : bytes) (s : stream) : bool :=
+(* stream/relay: the LISTEN protocol (conf.ProtocolId) and source (local) peer, both compared
+   unconditionally; target peer / target protocol only say where the stream is relayed to *)
+Definition relay_offers (c : relay_cfg) (s : stream) : bool :=
+  let cfg_proto := rl_proto c in let cfg_src := rl_src c in
   if negb (bytes_eqb cfg_proto (s_proto s)) || negb (bytes_eqb cfg_src (s_local s)) then false
   else true.
 
 (* stream/api/accept: protocol, optional local peer, optional remote peer list *)
-Definition accept_offers (cfg_proto cfg_local : bytes) (cfg_remotes : list bytes) (s : stream) : bool :=
+Definition accept_offers (c : accept_cfg) (s : stream) : bool :=
+  let cfg_proto := ac_proto c in let cfg_local := ac_local c in let cfg_remotes := ac_remotes c in
   if negb (bytes_eqb cfg_proto (s_proto s)) then false
   else if negb (local_ok cfg_local s) then false
   else if nonempty cfg_remotes then mem (s_remote s) cfg_remotes
@@ -47,19 +63,21 @@ Fixpoint any_eq (x : bytes) (l : list bytes) (acc : bool) : bool :=
   | y :: l' => any_eq x l' (if bytes_eqb y x then true else acc)
   end.
 
-Definition srpc_offers (cfg_protos cfg_peer_strs : list bytes) (s : stream) (local_str : bytes) : bool :=
+Definition srpc_offers (c : srpc_cfg) (s : stream) (local_str : bytes) : bool :=
+  let cfg_protos := sr_protos c in let cfg_peer_strs := sr_peer_strs c in
   if negb (mem (s_proto s) cfg_protos) then false
   else if nonempty cfg_peer_strs then any_eq local_str cfg_peer_strs false
   else true.
 
 (* pubsub/controller: protocol only *)
-Definition pubsub_offers (cfg_proto : bytes) (s : stream) : bool :=
+Definition pubsub_offers (c : pubsub_cfg) (s : stream) : bool :=
+  let cfg_proto := pb_proto c in
   if negb (bytes_eqb (s_proto s) cfg_proto) then false else true.
 
 (* link/solicit/controller: the control protocol, or "solicit:" ++ hash *)
 Inductive solicit_kind := SNone | SControl | SSolicited (hash_hex : bytes).
 
-Definition solicit_offers (s : stream) : outcome solicit_kind :=
+Definition solicit_offers (c : solicit_cfg) (s : stream) : outcome solicit_kind :=
   let pid := s_proto s in
   if bytes_eqb pid solicit_control_protocol_id then Ok SControl
   else if has_prefix pid solicit_stream_prefix_h then
